@@ -35,11 +35,27 @@ async fn run_async(scn: &Scn) {
     let provider = TokioIoProvider::bind(tcp_addrs, udp_addrs).await.expect("bind");
     let ctl = provider.start(&server);
 
+    if scn.calibrate {
+        use std::sync::atomic::Ordering::SeqCst;
+        let mut c = simrt::tokio_net::connect(target_addr(false, false), tcp_client_addr(0, false), 1 << 20).expect("connect");
+        let t0 = simrt::now_ns();
+        let mut b = [0u8; 8];
+        if let Ok(Ok(0)) = tokio::time::timeout(Duration::from_secs(3600), c.read(&mut b)).await {
+            READ_TIMEOUT_MS[1].store(((simrt::now_ns() - t0) / 1_000_000).max(100), SeqCst);
+        }
+        drop(c);
+        tokio::time::sleep(Duration::from_millis(100)).await;
+        let t0 = simrt::now_ns();
+        ctl.shut_down().await;
+        IDLE_SHUTDOWN_MS[1].store((simrt::now_ns() - t0) / 1_000_000, SeqCst);
+        return;
+    }
     let plans: Vec<Arc<TcpPlan>> = (0..scn.tcp.len()).map(|i| Arc::new(tcp_plan(scn, i, &reference_server))).collect();
     let results: Vec<Arc<std::sync::Mutex<TcpResult>>> = (0..scn.tcp.len()).map(|_| Arc::new(std::sync::Mutex::new(TcpResult::default()))).collect();
     let mut hs = vec![];
     for (ci, c) in scn.tcp.iter().enumerate() {
         let (c, plan, result) = (c.clone(), plans[ci].clone(), results[ci].clone());
+        let (budget, patience) = (msg_budget_ms(scn), client_patience(scn));
         hs.push(tokio::spawn(async move {
             tokio::time::sleep(Duration::from_millis(c.connect_ms)).await;
             let Ok(stream) = simrt::tokio_net::connect(target_addr(c.v6, false), tcp_client_addr(ci, c.v6), c.cap.max(8)) else {
@@ -52,12 +68,12 @@ async fn run_async(scn: &Scn) {
                 let mut from = 0;
                 let mut resp_i = 0;
                 for end in plan.msg_ends.iter() {
-                    if !client_write(&mut wr, &c, &plan, from, *end, &mut seg_i, &mut msg_elapsed).await {
+                    if !client_write(&mut wr, &c, &plan, from, *end, &mut seg_i, &mut msg_elapsed, budget).await {
                         break;
                     }
                     from = *end;
                     if resp_i < plan.resp_ends.len() {
-                        client_read(&mut rd, &c, &result, Some(plan.resp_ends[resp_i])).await;
+                        client_read(&mut rd, &c, &result, Some(plan.resp_ends[resp_i]), patience).await;
                         resp_i += 1;
                         let r = result.lock().unwrap();
                         if r.eof || r.timed_out || r.read_error.is_some() {
@@ -75,15 +91,15 @@ async fn run_async(scn: &Scn) {
                     if c.fault == 2 {
                         simrt::count_fault(Fault::ClientStall);
                     }
-                    client_read(&mut rd, &c, &result, None).await;
+                    client_read(&mut rd, &c, &result, None, patience).await;
                 }
             } else {
                 let (c2, r2) = (c.clone(), result.clone());
                 let reader_task = tokio::spawn(async move {
-                    client_read(&mut rd, &c2, &r2, None).await;
+                    client_read(&mut rd, &c2, &r2, None, patience).await;
                     rd
                 });
-                let all = client_write(&mut wr, &c, &plan, 0, plan.stream.len(), &mut seg_i, &mut msg_elapsed).await;
+                let all = client_write(&mut wr, &c, &plan, 0, plan.stream.len(), &mut seg_i, &mut msg_elapsed, budget).await;
                 if c.fault == 1 {
                     // abortive close: both halves go away without reading
                     simrt::count_fault(Fault::TcpPeerReset);
@@ -163,8 +179,8 @@ async fn run_async(scn: &Scn) {
             took_ms = (simrt::now_ns() - t0) / 1_000_000;
         }
     }
-    if !midrun && took_ms > 5_000 + 10 {
-        viol("shutdown-too-slow", format!("tokio provider: shut_down() completed {took_ms} simulated ms after the request (bound 5000 ms)"));
+    if !midrun && took_ms > shutdown_bound_ms(scn) {
+        viol("shutdown-too-slow", format!("tokio provider: shut_down() completed {took_ms} simulated ms after the request (bound {} ms)", shutdown_bound_ms(scn)));
     }
     if let Some((m, loc)) = crate::util::take_last_panic() {
         viol(&format!("panic@{}", crate::util::norm_location(&loc)), format!("a task of the Tokio provider panicked: {m}"));
@@ -184,7 +200,7 @@ async fn run_async(scn: &Scn) {
     }
 }
 
-async fn client_read<R: tokio::io::AsyncRead + Unpin>(s: &mut R, c: &TcpClient, result: &std::sync::Mutex<TcpResult>, until: Option<usize>) {
+async fn client_read<R: tokio::io::AsyncRead + Unpin>(s: &mut R, c: &TcpClient, result: &std::sync::Mutex<TcpResult>, until: Option<usize>, patience: Duration) {
     let mut buf = vec![0u8; c.read_chunk];
     let pause = if c.mode == 2 { 0 } else { c.read_pause_ms };
     loop {
@@ -193,7 +209,7 @@ async fn client_read<R: tokio::io::AsyncRead + Unpin>(s: &mut R, c: &TcpClient, 
                 return;
             }
         }
-        let r = tokio::time::timeout(Duration::from_secs(30), s.read(&mut buf)).await;
+        let r = tokio::time::timeout(patience, s.read(&mut buf)).await;
         {
             let mut res = result.lock().unwrap();
             match r {
@@ -218,7 +234,7 @@ async fn client_read<R: tokio::io::AsyncRead + Unpin>(s: &mut R, c: &TcpClient, 
     }
 }
 
-async fn client_write<W: tokio::io::AsyncWrite + Unpin>(s: &mut W, c: &TcpClient, plan: &TcpPlan, from: usize, to: usize, seg_i: &mut usize, msg_elapsed: &mut u64) -> bool {
+async fn client_write<W: tokio::io::AsyncWrite + Unpin>(s: &mut W, c: &TcpClient, plan: &TcpPlan, from: usize, to: usize, seg_i: &mut usize, msg_elapsed: &mut u64, budget_ms: u64) -> bool {
     let mut off = from;
     while off < to {
         if c.fault != 0 && off >= c.fault_after {
@@ -240,7 +256,7 @@ async fn client_write<W: tokio::io::AsyncWrite + Unpin>(s: &mut W, c: &TcpClient
         }
         let pause = c.pauses_ms[*seg_i % c.pauses_ms.len()];
         *seg_i += 1;
-        if pause > 0 && *msg_elapsed + pause <= 4000 {
+        if pause > 0 && *msg_elapsed + pause <= budget_ms {
             *msg_elapsed += pause;
             simrt::count_fault(Fault::TcpDelay);
             tokio::time::sleep(Duration::from_millis(pause)).await;
